@@ -428,9 +428,46 @@ func init() {
 				f.content = &blobVal{junk: true, n: mkInt(7)}
 			case 2:
 				f.mode = 0
+			case 3:
+				if b, ok := f.content.(*blobVal); ok && b.doc != nil {
+					k := ex.freshVar("cut", SInt, "int", false)
+					ex.assume(mkIntCmp("<", mkInt(0), k))
+					ex.assume(mkIntCmp("<", k, b.n))
+					f.content = &blobVal{doc: b.doc, typ: b.typ, torn: k, n: b.n, midField: true}
+				}
 			}
 		}
 		return nil
+	})
+	reg(rt+"CrashIterations", func(ex *Exec, fn *ssa.Function, args []Value, site string) Value { return int64(1) })
+	reg(rt+"FSDirN", func(ex *Exec, fn *ssa.Function, args []Value, site string) Value {
+		fs := ex.fsys()
+		if len(fs.dirs) == 0 {
+			fs.dirs = append(fs.dirs, &fsEnt{path: mkStr("/base"), mode: 0o777})
+			fs.dirs = append(fs.dirs, &fsEnt{path: mkStr("/base/store"), mode: 0o755})
+		}
+		return "/base/store"
+	})
+	crashDuring := func(ex *Exec, f Value, site string) (res Value) {
+		fs := ex.fsys()
+		fs.armed = true
+		depth := ex.depth
+		defer func() {
+			fs.armed = false
+			if r := recover(); r != nil {
+				if _, ok := r.(crashEvent); ok {
+					ex.depth = depth
+					res = true
+					return
+				}
+				panic(r)
+			}
+		}()
+		ex.callValue(f, nil, site)
+		return false
+	}
+	reg(rt+"CrashDuringK", func(ex *Exec, fn *ssa.Function, args []Value, site string) Value {
+		return crashDuring(ex, args[1], site)
 	})
 	reg(rt+"CrashDuring", func(ex *Exec, fn *ssa.Function, args []Value, site string) (res Value) {
 		fs := ex.fsys()
